@@ -1,8 +1,10 @@
 """C15 — a WcMatch object can be killed, reset and re-run with prefix-exact results.
 
 Proof part : Properties/C15.lean over Model/WcWalk.lean — for ALL trees / configurations / hook tables and
-             ALL monotone poll oracles: prefix (under DirSilent), bounded overshoot, routing (every oracle),
-             sticky abort, re-run = fresh run, on_reset once, counter; kernel-evaluated witnesses D19 / D20.
+             ALL monotone poll oracles: prefix (FULL statement, every hook table), nothing but one more poll after
+             the first observing poll, one path between two polls (`C15_paced`), routing (every oracle), sticky abort,
+             re-run = fresh run, on_reset once, counter; the prefix / whole-trace prefix also for every single-threaded NON-monotone history
+             (`PollBlind`: reset() in mid-iteration); `C15_D19_fixed_witness` / `C15_D20_fixed_witness` (repaired).
 Tie (K7)   : recording subclass of WcMatch vs the Lean model:
              * every abort point k = 0..n of every generated tree — by hook-invocation index, by poll index
                and by number of values received — with scripted hooks (return False / raise / return values);
@@ -10,9 +12,11 @@ Tie (K7)   : recording subclass of WcMatch vs the Lean model:
              * op interleavings match / imatch / next / kill / reset / is_aborted / get_skipped on ONE object,
                exhaustive up to length 4 (quick) / 6 (thorough) + sampled longer ones, real abort flag;
              * thorough: a second thread calling kill() under a tiny switch interval (observed polls replayed).
-Search     : the property itself on the real code (no model): prefix, overshoot bound, sticky, reset/re-run,
+Search     : the property itself on the real code (no model): prefix, overshoot (none), sticky, reset/re-run,
              on_reset once, counter, routing, for kill() called from every hook invocation / between any two
-             values / before the start.  Failing inputs explained by an open finding are reported as such.
+             values / before the start; histories with kill() / reset() from hooks and between two next() of one
+             generator (values and hook trace a prefix of the uninterrupted run's); the witnesses of the repaired
+             D19 / D20 are replayed — a reproduction is a VIOLATION.
 """
 from __future__ import annotations
 import itertools
@@ -43,13 +47,41 @@ def _is_prefix(a: list, b: list) -> bool:
 
 
 def _overshoot_ok(evs: list[str]) -> tuple[bool, int]:
-    """after the first poll that returned true: no directory validation, every poll true, ≤ 1 file visited"""
+    """`C15_overshoot` (`After`): after the first poll that returned true nothing happens but, at most, ONE more
+    poll, which answers true — no file is visited, no hook invoked, no value yielded"""
     if 'P1' not in evs:
         return True, 0
     post = evs[evs.index('P1') + 1:]
     visits = sum(1 for e in post if e[0] in 'MS')
-    ok = visits <= 1 and not any(e[0] == 'D' for e in post) and 'P0' not in post
-    return ok, visits
+    return post in ([], ['P1']), visits
+
+
+def _kill_point_ok(evs: list[str], kind: str, k: int) -> bool:
+    """`C15_paced`: kill() inside the k-th hook invocation / by the consumer right after the k-th value — only the
+    file (or directory) being processed is finished: every hook invocation up to the next poll is for the same path,
+    and that poll observes the flag (added when the repair of D20 closed the path by which seeded change C15a — a
+    `continue` that jumps over the after-file poll — used to show up)"""
+    if kind == 'hook':
+        at = [i for i, e in enumerate(evs) if e[0] in 'RDFMSE']
+        path = lambda e: e[1:]  # noqa: E731
+    else:
+        at = [i for i, e in enumerate(evs) if e[0] == 'Y']
+        path = lambda e: e[2:]  # noqa: E731
+    if k < 1 or k > len(at):
+        return True
+    i = at[k - 1]
+    here = path(evs[i])
+    for e in evs[i + 1:]:
+        if e[0] == 'P':
+            return e == 'P1'
+        if e[0] in 'DFMSE' and e[1:] != here:
+            return False
+    return True     # the run ended before another poll: nothing further happened
+
+
+def _trace(evs: list[str]) -> list[str]:
+    """everything but the polls (`nonPoll` of `C15_trace_prefix`)"""
+    return [e for e in evs if e[0] != 'P']
 
 
 def _routing_ok(evs: list[str], script: K.Script) -> str | None:
@@ -77,13 +109,6 @@ def _routing_ok(evs: list[str], script: K.Script) -> str | None:
             if p not in raising and p.rsplit('/', 1)[-1] not in raising:
                 return 'on_error without a raise'
     return None
-
-
-def _dir_silent(script: K.Script) -> bool:
-    """DirSilent of the theorem: no value can be yielded from inside the folder loop"""
-    if not (script.dir_raise or script.cmp_dir_raise):
-        return True
-    return not (script.err_all or script.err_val)
 
 
 def _rand_script_kw(R, case: K.Case) -> dict:
@@ -120,7 +145,6 @@ def run(ck: Check) -> int:
     R = common.rng('C15')
     quick = ck.tier == 'quick' and not ck.deep()
     drv = common.Driver() if ck.driver_ok else None
-    known_ids = {k.get('id') for k in ck.known}
 
     # ------------------------------------------------------------------ K7: every abort point
     def s_abort(sr):
@@ -313,7 +337,8 @@ def run(ck: Check) -> int:
     def s_prop(sr):
         sr.note = ('the property on the real code, no model: kill() called inside every hook invocation (real abort flag), '
                    'between any two received values, and before the start; checked: prefix of the uninterrupted results, '
-                   'overshoot bound (≤ 1 file after the first observing poll, none unless it was the after-folder poll), '
+                   'overshoot (after kill() only the file being processed is finished before a poll observes the flag; after '
+                   'the first observing poll at most one more poll, answering true: no file, no hook), '
                    'sticky until reset(), reset() + match() = the complete result, identical re-runs, on_reset once, '
                    'counter restarted and = number of on_skip calls, routing / value pass-through')
         n_trees = 400 if quick else 4000
@@ -407,22 +432,25 @@ def run(ck: Check) -> int:
                     inp = {**desc, 'kill': f'{kind} {k}'}
                     res = _results(evs)
                     if not _is_prefix(res, full):
-                        f = Failing('results after kill() are not a prefix of the uninterrupted results', inp, full, res,
-                                    'wcmatch/wcmatch.py:267-298')
-                        kid = None
-                        if not _dir_silent(sc) and drv is not None:
-                            # attributed iff the model (at code) predicts exactly this run
-                            orc = ('h%d' % k) if kind == 'hook' else ('y%d' % k)
-                            model = drv.ask(case.model_line(sc, orc))
-                            if _results(_events(model)) == res:
-                                kid = 'KF-D20'
-                        ck.report(f, kid if kid in known_ids else None)
+                        # (was KF-D20 when a value is yielded from inside the folder loop; repaired: never attributed)
+                        ck.report(Failing('results after kill() are not a prefix of the uninterrupted results', inp, full, res,
+                                          'wcmatch/wcmatch.py:267-302'))
                         sr.histogram['prefix-fail'] = sr.histogram.get('prefix-fail', 0) + 1
+                    if not _is_prefix(_trace(evs), _trace(full_evs)):
+                        ck.report(Failing('hook invocations / values after kill() are not an initial segment of the '
+                                          "uninterrupted run's", inp, ' '.join(_trace(full_evs)), ' '.join(_trace(evs)),
+                                          'wcmatch/wcmatch.py:257-305'))
                     ok, visits = _overshoot_ok(evs)
                     overs += visits
                     if not ok:
-                        ck.report(Failing('more than one file visited / a directory validated / a false poll after the first '
-                                          'poll that observed the flag', inp, '≤ 1 file, no validation', ' '.join(evs)))
+                        ck.report(Failing('after the first poll that observed the flag something other than one more '
+                                          'true poll happened (a file visited / a hook invoked / a false poll)', inp,
+                                          'nothing, or one poll answering true', ' '.join(evs), 'wcmatch/wcmatch.py:277-282'))
+                    if kind in ('hook', 'yield') and not _kill_point_ok(evs, kind, k):
+                        ck.report(Failing('after kill() (from a hook / by the consumer after a value) another file or directory '
+                                          'is processed before a poll observes the flag', inp,
+                                          'only the file being processed is finished, then a poll answers true', ' '.join(evs),
+                                          'wcmatch/wcmatch.py:267-305'))
                     if sk_after != sum(1 for e in evs if e[0] == 'S'):
                         ck.report(Failing('get_skipped() after an aborted run != number of on_skip calls of that run', inp,
                                           sum(1 for e in evs if e[0] == 'S'), sk_after))
@@ -475,43 +503,129 @@ def run(ck: Check) -> int:
         sr.distinct = sr.evaluations
     ck.search('property-on-real-code', s_prop)
 
-    # ------------------------------------------------------------------ search: D19 scenario (mid-iteration reset)
+    # ------------------------------------------------------------------ search: non-monotone single-threaded histories
     def s_d19(sr):
-        sr.note = ('DESIGN D19: exclude "skipme", kill() inside the first on_validate_directory, the consumer takes one '
-                   'value, calls reset(), keeps iterating; expected by the property (reading: reset between two next() of '
-                   'one generator is part of the histories): a sub-sequence of the uninterrupted results')
-        with K.TempTree(spec=D19_TREE) as root:
-            case = K.Case(root, WM.RECURSIVE, K.Pat([(False, False, '*')]), K.Pat([(False, False, 'skipme')]))
-            full = _results(_events(case.real_run(case.new_script(oracle=K.oracle_fn('0')))))
-            # the first validated directory must not be the excluded one for the scenario to bite
-            sc = case.new_script(kill_at=2)
+        sr.note = ('histories with reset(): kill() / reset() called from hook invocations and by the consumer between two '
+                   'next() of ONE generator (C15_prefix_single_thread / C15_trace_prefix: every oracle that does not look at '
+                   'the poll counter); checked on the real code: values a prefix of the uninterrupted results, hook trace an '
+                   'initial segment, nothing but one true poll after the first observing poll; the observed poll values are '
+                   'replayed into the model (tie).  First the witnesses of the repaired D19 (exclude "skipme", kill() inside '
+                   'the first on_validate_directory, one next(), reset(), iterate) and D20 (directory validation raises, '
+                   'on_error returns values, kill() in hook #2 / after the first value): a reproduction is a VIOLATION')
+        n_trees = 300 if quick else 3000
+        rows = []
+
+        def history(case, kw, kill_at, reset_at, acts):
+            """acts[i] is done by the consumer before the (i+1)-th next(): 'k' kill, 'r' reset, 'kr' both, '' nothing"""
+            sc = case.new_script(kill_at=kill_at, reset_at=reset_at, **kw)
             obj = case.obj(sc)
-            got = []
             gen = obj.imatch()
-            try:
-                v = next(gen)
-                sc.log.append(K.yv(v))
-                got.append(K.yv(v))
-                obj.reset()
-                for v in gen:
+            got = []
+            i = 0
+            with common.time_limit(20):
+                while True:
+                    for a in (acts[i] if i < len(acts) else ''):
+                        obj.kill() if a == 'k' else obj.reset()
+                    i += 1
+                    try:
+                        v = next(gen)
+                    except StopIteration:
+                        break
                     sc.log.append(K.yv(v))
                     got.append(K.yv(v))
-            except StopIteration:
-                pass
+            return sc, obj, got
+
+        def one(case, kw, kill_at, reset_at, acts, what):
+            try:
+                full_evs = _events(case.real_run(case.new_script(oracle=K.oracle_fn('0'), **kw)))
+                sc, obj, got = history(case, kw, kill_at, reset_at, acts)
+            except common.CallTimeout:
+                return
             sr.evaluations += 1
-            polls = ''.join('1' if e == 'P1' else '0' for e in sc.log if e[0] == 'P')
-            real = ' '.join(sc.log + [f'K{obj.get_skipped()}'])
-            model = drv.ask(case.model_line(None, 'b' + polls)) if drv is not None else None
-            sr.histogram['model-agrees'] = int(model == real)
+            full = _results(full_evs)
+            evs = list(sc.log)
+            polls = ''.join('1' if e == 'P1' else '0' for e in evs if e[0] == 'P')
+            hist = {'kill_in_hook': kill_at, 'reset_in_hooks': sorted(reset_at),
+                    'consumer_before_each_next': list(acts), 'observed_polls': polls}
+            inp = {**case.describe(), 'script': kw, 'history': hist}
+            sr.histogram[what] = sr.histogram.get(what, 0) + 1
+            if '1' in polls:
+                sr.histogram['flag-observed'] = sr.histogram.get('flag-observed', 0) + 1
+            if '0' in polls[polls.find('1') + 1:] and '1' in polls:
+                sr.histogram['false-poll-after-true'] = sr.histogram.get('false-poll-after-true', 0) + 1
             outside = [g for g in got if g not in full]
             if outside:
-                f = Failing('mid-iteration reset(): values outside the uninterrupted sequence are yielded '
-                            '(the walk enters directories that were never validated)',
-                            {**case.describe(), 'history': 'imatch; kill() in hook #2; next; reset(); iterate to the end',
-                             'observed_polls': polls}, full, got, 'wcmatch/wcmatch.py:277-278')
-                ck.report(f, 'KF-D19' if (model == real and 'KF-D19' in known_ids) else None)
-            if model is not None and model != real:
-                ck.broken_ties.append(f'D19 replay: model {model!r} vs real {real!r}')
+                ck.report(Failing('values outside the uninterrupted sequence are yielded (the walk continued into '
+                                  'directories that were never validated)', inp, full, got, 'wcmatch/wcmatch.py:277-282'))
+            elif not _is_prefix(got, full):
+                ck.report(Failing('kill()/reset() history: the values are not a prefix of the uninterrupted results',
+                                  inp, full, got, 'wcmatch/wcmatch.py:267-302'))
+            if not _is_prefix(_trace(evs), _trace(full_evs)):
+                ck.report(Failing("kill()/reset() history: hook invocations / values are not an initial segment of the "
+                                  "uninterrupted run's", inp, ' '.join(_trace(full_evs)), ' '.join(_trace(evs)),
+                                  'wcmatch/wcmatch.py:257-305'))
+            if not _overshoot_ok(evs)[0]:
+                ck.report(Failing('kill()/reset() history: after the first poll that observed the flag something other than '
+                                  'one more true poll happened', inp, 'nothing, or one poll answering true', ' '.join(evs),
+                                  'wcmatch/wcmatch.py:277-282'))
+            real = ' '.join(evs + [f'K{obj.get_skipped()}'])
+            rows.append((inp, case.model_line(sc, 'b' + polls), real))
+
+        star = K.Pat([(False, False, '*')])
+        with K.TempTree(spec=D19_TREE) as root:
+            case = K.Case(root, WM.RECURSIVE, star, K.Pat([(False, False, 'skipme')]))
+            one(case, {}, 2, (), ['', 'r'], 'D19-witness')           # the recorded history of the repaired D19
+            for acts in (['', 'r', 'k', 'r'], ['k', 'r'], ['', 'k', 'r'], ['', 'kr'], ['', '', 'k', 'r']):
+                for ka in (None, 2, 3, 4):
+                    one(case, {}, ka, (), acts, 'D19-tree')
+                    one(case, {}, ka, (ka + 1,) if ka else (3,), acts, 'D19-tree')
+        with K.TempTree(spec=D20_TREE) as root:
+            case = K.Case(root, WM.RECURSIVE, star, K.Pat([]))
+            kw20 = {'dir_raise': ['d1', 'd2'], 'err_all': True}
+            one(case, kw20, 2, (), [], 'D20-witness')                 # the recorded witness of the repaired D20
+            one(case, kw20, None, (), ['', 'k'], 'D20-witness')       # … and its "consumer kills after the first value" form
+            for acts in (['', 'k', 'r'], ['', 'kr'], ['', 'r'], ['', '', 'k']):
+                for ka in (None, 2, 3, 5):
+                    one(case, kw20, ka, (), acts, 'D20-tree')
+                    one(case, kw20, ka, (4,), acts, 'D20-tree')
+        for tt in [K.TempTree(R, max_entries=R.choice([5, 8, 12])) for _ in range(n_trees)]:
+            with tt as root:
+                cyc = K.is_cyclic(root)
+                fl = K.gen_flags(R, WM, cyc) | (WM.RECURSIVE if R.random() < 0.85 else 0)
+                fp = K.gen_pat(R, K.FILE_BODIES, 0.3)
+                xp = K.gen_pat(R, K.DIR_BODIES, 0.4)
+                try:
+                    case = K.Case(root, fl, fp, xp)
+                except K.Cyclic:
+                    continue
+                kw = _rand_script_kw(R, case)
+                try:
+                    evs0 = _events(case.real_run(case.new_script(oracle=K.oracle_fn('0'), **kw)))
+                except common.CallTimeout:
+                    continue
+                nh = sum(1 for e in evs0 if e[0] in 'RDFMSE')
+                ny = len(_results(evs0))
+                for _ in range(6 if quick else 10):
+                    ka = R.randint(1, nh + 1) if R.random() < 0.7 else None
+                    ra = tuple(sorted({R.randint(1, nh + 1) for _ in range(R.choice([0, 0, 1, 1, 2]))}))
+                    acts = [R.choice(['', '', '', 'k', 'r', 'r', 'kr']) for _ in range(ny + 2)]
+                    one(case, kw, ka, ra, acts, 'generated')
+        if drv is not None:
+            replies = drv.ask_many([r[1] for r in rows])
+            agree = bad = 0
+            for (inp, mline, real), model in zip(rows, replies):
+                if real == model:
+                    agree += 1
+                    continue
+                bad += 1
+                if bad <= 3:
+                    ck.broken_ties.append('history replay: ' + json.dumps({'input': inp, 'real': real, 'model': model})[:1500])
+            if bad > 3:
+                ck.broken_ties.append(f'history replay: {bad} of {len(rows)} histories differ between model and code')
+            if bad:
+                sr.histogram['model-disagrees'] = bad
+            sr.histogram['model-agrees'] = agree
+        sr.distinct = len({json.dumps(r[0], sort_keys=True) for r in rows})
     ck.search('D19-mid-iteration-reset', s_d19)
 
     if drv:
@@ -520,7 +634,8 @@ def run(ck: Check) -> int:
         'hooks are functions of (base, name): the same file gets the same answer in every run',
         'exceptions raised by on_match / on_skip / on_error / on_reset propagate to the consumer and are not modelled',
         'at most one generator of an object is live in the op-interleaving stream (imatch closes the previous one)',
-        'C15_prefix needs DirSilent (no value yielded from inside the folder loop); the case without it is finding D20',
+        'the non-monotone theorems (C15_prefix_single_thread, C15_trace_prefix) cover single-threaded histories only: an '
+        'oracle that clears the flag between two consecutive polls (a second thread calling reset()) is outside `Latched`',
     ])
 
 
